@@ -175,6 +175,13 @@ partial def progLoop (h out : IO.FS.Stream) (S : Sys := pySys) : IO Unit := do
     -- names of the functions recognised as chains (straight-line productions; lifting proved, C05 stage 2)
     out.putStrLn (";".intercalate (chainNames Gen.Prog.progTable)); out.flush
     progLoop h out S
+  | ["DETECTORS"] =>
+    out.putStrLn (";".intercalate (detectNames Gen.Prog.progTable)); out.flush
+    progLoop h out S
+  | ["IFCHAINS"] =>
+    -- names of the chains with conditionals on utils.is_next_token (lifting proved, C05)
+    out.putStrLn (";".intercalate (ifChainNames Gen.Prog.progTable)); out.flush
+    progLoop h out S
   | ["NAVFRAG"] =>
     -- names of the largest closed set of navigation programs over the proved helpers (C05, partial lifting)
     out.putStrLn (";".intercalate (navFragmentNames Gen.Prog.progTable)); out.flush
